@@ -993,7 +993,11 @@ func (e *Env) tryIdent(name string) (v Val, ok bool) {
 func (e *Env) evalNoSite(x *Expr) Val {
 	if x.Op == "id" {
 		if e.tr.siteFor(x.S) != nil {
-			if _, shadow := e.bound[x.S]; !shadow {
+			_, shadow := e.bound[x.S]
+			if _, isVar := e.vars[x.S]; isVar && !e.own {
+				shadow = true
+			}
+			if !shadow {
 				return Val{}
 			}
 		}
@@ -1037,7 +1041,11 @@ func (e *Env) selector(x *Expr) Val {
 	// call-site members
 	if x.A[0].Op == "id" {
 		if s := tr.siteFor(x.A[0].S); s != nil {
-			if _, shadow := e.bound[x.A[0].S]; !shadow {
+			_, shadow := e.bound[x.A[0].S]
+			if _, isVar := e.vars[x.A[0].S]; isVar && !e.own {
+				shadow = true // a parameter of the callee whose contract is being evaluated, not a site of the caller
+			}
+			if !shadow {
 				return e.siteMember(s, x.S)
 			}
 		}
@@ -1157,6 +1165,10 @@ func (e *Env) callExpr(x *Expr) Val {
 			return Val{T: fmt.Sprintf("(strlen %s)", v.T), Ty: intT}
 		case *types.Array:
 			return Val{T: tr.lit64(u.Len()), Ty: intT}
+		case *types.Map:
+			if x.S == "len" {
+				return Val{T: tr.mapLen(e.heap, v), Ty: intT}
+			}
 		}
 		e.fail("len of %s", v.Ty)
 	case "mathint":
@@ -1238,6 +1250,17 @@ func (e *Env) callExpr(x *Expr) Val {
 			}
 		}
 		e.fail("%s(%s): only meaningful in the contract of a callee that declares `invokes %s`", x.S, x.A[0].S, x.A[0].S)
+	case "distinct":
+		// distinct(a, b): two reference-like values (pointers, maps, channels, possibly of different
+		// static types) are not the same object
+		if len(x.A) != 2 {
+			e.fail("distinct(a, b)")
+		}
+		a, b := e.eval(x.A[0]), e.eval(x.A[1])
+		if tr.smt.sortOf(a.Ty) != "Ref" || tr.smt.sortOf(b.Ty) != "Ref" {
+			e.fail("distinct() needs two reference values")
+		}
+		return Val{T: fmt.Sprintf("(not (= %s %s))", a.T, b.T), Ty: boolT}
 	case "next":
 		if len(x.A) != 1 || x.A[0].Op != "id" {
 			e.fail("next(loopvar)")
